@@ -189,7 +189,7 @@ def discharge(obls, timeout_ms=60000, second_solver=False, quick_ms=4000):
                     byv.setdefault(variant_of(o), []).append(o)
                 rest = []
                 for variant, items in byv.items():
-                    rest += run(fn, backend, items, max(quick_ms * 4, min(timeout_ms, 60000)), variant)
+                    rest += run(fn, backend, items, max(quick_ms * 4, min(2 * timeout_ms, 120000)), variant)
     for o in rest:
         o.verdict = "undecided"
         o.backend = "none"
